@@ -1542,7 +1542,7 @@ func stage2DoneResult(c *Ctx, p *GoProg) {
 		}
 		return true
 	})
-	c.MinCount("unifiedMachine returns", nRet, 3)
+	c.MinCount("unifiedMachine returns", nRet, 2)
 	c.MinCount("unifiedMachine done assignments", nAsg, 8)
 	c.Check(okRet, "unifiedMachine:done:returned", p.Pos(posBad), "every return of unifiedMachine hands back the `done` flag it received from updateChar",
 		"a return of unifiedMachine reports a terminator status other than the one received ("+whyR+"): parseMessage then either waits for a terminator that was already consumed (hang) or stops draining while one is still queued (stale terminator poisons the next parse)",
